@@ -422,27 +422,36 @@ def _is_unchanged(r):
             and r["ok"] == r["nk"] and r["ox"] == r["nx"])
 
 
-def _diff_class(recs, opt, gen):
-    """Input class of a disagreement between an optimised and the generic change set."""
+def _inside(path, flt):
+    return path != ["-"] and any(path[:len(f)] == list(f) for f in flt)
+
+
+def _diff_classes(recs, opt, gen, q):
+    """Input classes of a disagreement between an optimised and the generic change set (one per differing record)."""
+    flt = None if q["f"] == ["all"] else q["f"][1]
+
+    def sort_of(r):
+        return ("error" if r["id"] == "error" else "unversioned" if r["id"] == "-" else
+                ("unchanged-" if _is_unchanged(r) else "changed-") + ("root" if r["id"] == "root" else "entry"))
+
+    def where(r):
+        if flt is None:
+            return "whole-tree"
+        return "inside-filter" if _inside(r["op"], flt) or _inside(r["np"], flt) else "outside-filter"
     a = {(recs[k - 1]["id"], json.dumps(recs[k - 1]["np"])): recs[k - 1] for k in opt}
     b = {(recs[k - 1]["id"], json.dumps(recs[k - 1]["np"])): recs[k - 1] for k in gen}
-    by_id_a = {r["id"]: r for r in a.values()}
-    by_id_b = {r["id"]: r for r in b.values()}
     cls = set()
-    for i in sorted(set(by_id_a) | set(by_id_b)):
-        x, y = by_id_a.get(i), by_id_b.get(i)
+    for key in sorted(set(a) | set(b)):
+        x, y = a.get(key), b.get(key)
         if x == y:
             continue
         if x is not None and y is not None:
-            what = "unchanged-entry" if _is_unchanged(y) else ("unversioned" if i == "-" else "changed-entry")
-            cls.add("%s-differs-in-%s" % (what, "+".join(sorted(k for k in x if x[k] != y[k]))))
+            cls.add("%s-differs-in-%s" % (sort_of(y), "+".join(sorted(k for k in x if x[k] != y[k]))))
         elif x is not None:
-            cls.add("only-optimised-reports-%s" % ("error" if i == "error" else "unchanged-entry" if _is_unchanged(x) else
-                                                   "unversioned" if i == "-" else "changed-entry"))
+            cls.add("only-optimised-reports-%s-%s" % (sort_of(x), where(x)))
         else:
-            cls.add("only-generic-reports-%s" % ("error" if i == "error" else "unchanged-entry" if _is_unchanged(y) else
-                                                 "unversioned" if i == "-" else "changed-entry"))
-    return "+".join(sorted(cls)) or "same-ids"
+            cls.add("only-generic-reports-%s-%s" % (sort_of(y), where(y)))
+    return sorted(cls) or ["same-records-different-multiplicity"]
 
 
 def judge(ctx, rows, chunk=400):
@@ -469,12 +478,12 @@ def judge(ctx, rows, chunk=400):
                           observed={k: [row["recs"][n - 1] for n in v] for k, v in q["o"].items()},
                           observed_git={k: [row["grecs"][n - 1] for n in v] for k, v in q["g"].items()}, verdict=b)
             for law in b.get("failed", []):
-                if law == "chk=generic":
-                    ctx.violation("chk=generic:InterCHKRevisionTree.iter_changes:%s" % _diff_class(row["recs"], q["o"]["chk"], q["o"]["inv"]),
-                                  "InterCHKRevisionTree and InterInventoryTree disagree (%s)" % where, replay)
-                elif law == "dirstate=generic":
-                    ctx.violation("dirstate=generic:InterDirStateTree.iter_changes:%s" % _diff_class(row["recs"], q["o"]["ds"], q["o"]["wt"]),
-                                  "InterDirStateTree and InterInventoryTree disagree (%s)" % where, replay)
+                if law in ("chk=generic", "dirstate=generic"):
+                    name, a, g = (("InterCHKRevisionTree", "chk", "inv") if law == "chk=generic" else
+                                  ("InterDirStateTree", "ds", "wt"))
+                    for cls in _diff_classes(row["recs"], q["o"][a], q["o"][g], q):
+                        ctx.violation("%s:%s.iter_changes:%s%s" % (law, name, "include_unchanged," if q["iu"] else "", cls),
+                                      "%s and InterInventoryTree disagree: %s (%s)" % (name, cls, where), replay)
                 else:
                     for k in b.get("culprits", []):
                         ctx.violation("%s:%s:%s" % (law, IMPLS[k].split("(")[0] + ("" if "(" not in IMPLS[k] else "/" + k), _kinds(s, t)),
